@@ -161,12 +161,13 @@ pub fn run(ctx: &mut Ctx, o: &AttackOpts) {
         let Some(full) = msg::split(&issued, fmt) else { continue };
         let res = Resolver::Const(key.to_string());
         let mut pair = ctx.case * 100_000;
+        let force_holders = std::cell::Cell::new(false);
         let mut go = |ctx: &mut Ctx, m2: &Msg, with_kb: bool| {
             pair += 1;
             let fmts: Vec<Fmt> = if o.both_formats && msg::jwt_three_parts(&m2.jwt) { vec![fmt, fmt.other()] } else if msg::jwt_three_parts(&m2.jwt) { vec![fmt] } else { vec![Fmt::Compact] };
             for f in fmts {
                 let raw = msg::render(m2, f, [JsonVariant::KbNull, JsonVariant::KbAbsent, JsonVariant::KbEmpty, JsonVariant::Extra][(pair % 4) as usize]);
-                if o.both_formats && pair % 5 == 0 && msg::jwt_three_parts(&m2.jwt) {
+                if o.both_formats && (pair % 5 == 0 || force_holders.get()) && msg::jwt_three_parts(&m2.jwt) {
                     // C10 for holders: built from either serialization of the same (tampered) message, the constructor decides
                     // alike and an empty selection yields the same presentation
                     ctx.hpair = pair;
@@ -422,6 +423,20 @@ pub fn run(ctx: &mut Ctx, o: &AttackOpts) {
                 let mut m2 = m.clone();
                 m2.kb = Some(t);
                 go(ctx, &m2, true);
+            }
+            // KB-JWTs with another number of parts (a holder that is fed such a presentation back must treat both formats alike)
+            {
+                let kp: Vec<&str> = kbt.splitn(3, '.').collect();
+                if kp.len() == 3 {
+                    force_holders.set(true);
+                    for t in [format!("{}.{}", kp[0], kp[1]), format!("{}.{}.{}.{}", kp[0], kp[1], kp[2], kp[2]), kp[0].to_string(), format!(".{}.{}", kp[1], kp[2]), format!("{}..{}", kp[0], kp[2]), "x".to_string()] {
+                        let mut m2 = m.clone();
+                        m2.kb = Some(t);
+                        go(ctx, &m2, true);
+                        go(ctx, &m2, false);
+                    }
+                    force_holders.set(false);
+                }
             }
             // a presented disclosure repeated right next to itself after the KB-JWT was made (sd_hash covers the sequence as sent)
             for i in 0..m.discs.len().min(3) {
